@@ -570,8 +570,15 @@ def check(run):
             continue
         nerr += 1
         run.touch(g_)
-        ccs = [c for c in g_.calls() if q.callee_name(c) == C + '::close_connection']
-        bad = [r_ for r_ in rets if not q.any_precedes(g_, ccs, r_)]
+        # close_connection() itself, or a member all of whose paths end in it (a report-and-close helper)
+        closers = {C + '::close_connection'}
+        for h_ in fx.repo_functions():
+            if h_.cls == C and h_.kind != 'lambda' and h_.cfg is not None:
+                hc = [c for c in h_.calls() if q.callee_name(c) == C + '::close_connection']
+                if hc and q.on_all_paths(h_, hc):
+                    closers.add(h_.norm)
+        ccs = [c for c in g_.calls() if q.callee_name(c) in closers]
+        bad = [r_ for r_ in rets if not q.any_precedes(g_, ccs, r_) and not (is_node(r_.get('e')) and any(x in ccs for x in walk(r_['e'])))]
         run.check(not bad, 'R4', 'reply-error-closes', '%s: completion lambda at line %s' % (q.top_function(fx, g_).norm.split('::')[-1], g_.d.get('line', g_.loc().split(':')[-1])), g_.loc(bad[0]) if bad else g_.loc(),
                   'a completion written as a lambda returns on its error edge without close_connection(): when the client hangs up between its request and the reply, the connection object dies with the target connection still open - no end-of-file is ever sent to the target, which keeps a dead connection',
                   'the error edge calls close_connection()')
